@@ -1,4 +1,4 @@
 INIT SInit
 NEXT SNext
-INVARIANTS SoloProgress SumPreserved
+INVARIANTS Sorted SoloProgress SumPreserved
 CHECK_DEADLOCK FALSE
